@@ -256,7 +256,7 @@ func cmdCheck(args []string) int {
 				defer rp.Close()
 			}
 		}
-		perSig := map[string]int{}
+		confirmed, tried, lastMiss := map[string]int{}, map[string]int{}, map[string]string{}
 		for i, f := range mine {
 			path := filepath.Join(rdir, fmt.Sprintf("%s-%d.json", f.Harness, i))
 			writeReplayFile(path, f, boundsFor(results, f.Harness))
@@ -272,7 +272,7 @@ func cmdCheck(args []string) int {
 				sig += "|known" + strconv.Itoa(kidx)
 			}
 			reproduced := true
-			if f.Kind == "LOCKSET" {
+			if f.Kind == "LOCKSET" || f.Kind == "ENGINE" {
 				// a fact of the explored paths themselves (an access executed without the lock held);
 				// there is no single-threaded native run that could confirm or refute it
 				if kidx >= 0 {
@@ -284,24 +284,23 @@ func cmdCheck(args []string) int {
 				}
 				continue
 			}
-			if perSig[sig] >= 2 {
-				// enough native confirmations / reports for this failure signature
+			if confirmed[sig] >= 1 || tried[sig] >= 8 {
+				// this failure signature has been confirmed natively (or enough candidates were tried)
 				continue
 			}
 			if rp != nil {
-				{
-					ok, out := rp.Replay(path, f)
-					replayed++
-					reproduced = ok
-					if !ok {
-						inconclusive = append(inconclusive, fmt.Sprintf("counterexample for %s in %s did not reproduce natively (encoding mismatch?) replay=%s: %s", f.Label, f.Harness, path, lastLines(out, 3)))
-					}
+				ok, out := rp.Replay(path, f)
+				replayed++
+				tried[sig]++
+				reproduced = ok
+				if !ok {
+					lastMiss[sig] = fmt.Sprintf("counterexample for %s in %s did not reproduce natively (encoding mismatch?) replay=%s: %s", f.Label, f.Harness, path, lastLines(out, 3))
 				}
 			}
-			perSig[sig]++
 			if !reproduced {
 				continue
 			}
+			confirmed[sig]++
 			if kidx >= 0 {
 				knownHits[kidx] = true
 				continue
@@ -309,6 +308,12 @@ func cmdCheck(args []string) int {
 			violations++
 			fmt.Printf("VIOLATION property=%s replay=%s\n", prop, path)
 			fmt.Printf("  harness=%s label=%s kind=%s %s tags=%v\n", f.Harness, f.Label, f.Kind, f.Detail, f.Tags)
+		}
+		// a signature none of whose candidates reproduced natively is an encoding mismatch: inconclusive
+		for sig, msg := range lastMiss {
+			if confirmed[sig] == 0 {
+				inconclusive = append(inconclusive, msg)
+			}
 		}
 	}
 	for ki := range known.Findings {
@@ -385,8 +390,9 @@ func writeReplayFile(path string, f *Failure, bounds map[string]int) {
 // native replay
 
 type replayer struct {
-	dir string
-	bin string
+	dir     string
+	bin     string
+	cutMode string
 }
 
 const replayTestSrc = `package raft
@@ -416,7 +422,7 @@ func TestVerifReplay(t *testing.T) {
 				fmt.Println("VERIF-ASSUME-FALSE")
 				return
 			}
-			fmt.Printf("VERIF-PANIC %v\n", r)
+			fmt.Printf("VERIF-PANIC label=%s %v\n", vRT.panicLbl, r)
 		}
 	}()
 	h()
@@ -479,11 +485,26 @@ func (rp *replayer) Replay(path string, f *Failure) (bool, string) {
 	if f.Kind == "BLOCKS" {
 		timeout = 8 * time.Second
 	}
+	if f.Image != nil && f.Kind == "ASSERT" && rp.cutMode == "" {
+		// storage images: the byte cut inside a payload is relative to the model's payload length; try the
+		// proportional cut first, then the longest and the shortest strict prefix of the real payload
+		var out string
+		for _, mode := range []string{"prop", "max", "min"} {
+			rp.cutMode = mode
+			ok, o := rp.Replay(path, f)
+			rp.cutMode = ""
+			out = o
+			if ok {
+				return true, o
+			}
+		}
+		return false, out
+	}
 	ctx, cancel := context.WithTimeout(context.Background(), timeout)
 	defer cancel()
 	cmd := exec.CommandContext(ctx, rp.bin, "-test.run", "^TestVerifReplay$", "-test.v", "-test.timeout", "25s")
 	cmd.Dir = rp.dir
-	cmd.Env = append(os.Environ(), "VERIF_REPLAY="+path)
+	cmd.Env = append(os.Environ(), "VERIF_REPLAY="+path, "VERIF_CUT_MODE="+rp.cutMode)
 	var buf bytes.Buffer
 	cmd.Stdout = &buf
 	cmd.Stderr = &buf
@@ -500,6 +521,19 @@ func (rp *replayer) Replay(path string, f *Failure) (bool, string) {
 		for _, line := range strings.Split(out, "\n") {
 			if strings.HasPrefix(line, "VERIF-ASSERT-FAIL ") {
 				for _, p := range labelProps(strings.TrimPrefix(line, "VERIF-ASSERT-FAIL ")) {
+					for _, q := range labelProps(f.Label) {
+						if p == q {
+							return true, out
+						}
+					}
+				}
+			}
+		}
+		// ... or as a run-time panic inside the library, if the harness attributes panics to this property
+		for _, line := range strings.Split(out, "\n") {
+			if strings.HasPrefix(line, "VERIF-PANIC label=") {
+				lbl := strings.Fields(strings.TrimPrefix(line, "VERIF-PANIC label="))[0]
+				for _, p := range labelProps(lbl) {
 					for _, q := range labelProps(f.Label) {
 						if p == q {
 							return true, out
